@@ -77,6 +77,9 @@ Flush   == /\ vopen /\ vdisk' = vsess /\ vdirty' = FALSE /\ UNCHANGED <<vsess, v
 \* size and its own special files, so the capacity figures are re-read, not preserved
 CompactAny == /\ vopen /\ vdisk' = vsess /\ vdirty' = FALSE /\ UNCHANGED <<vsess, vopen>>
 Compact(cap2, extra2) == CompactAny /\ vcap' = cap2 /\ vextra' = extra2
+\* compact() refused (an archive whose files cannot all be named - no complete listfile - cannot be
+\* rebuilt without losing names): like every refusal it changes nothing
+CompactFail == vopen /\ UNCHANGED mvars
 \* drop(MutableArchive): flush on drop
 Close   == /\ vopen /\ vdisk' = vsess /\ vopen' = FALSE /\ vdirty' = FALSE /\ UNCHANGED <<vsess, vcap, vextra>>
 
@@ -85,7 +88,7 @@ ReadIs(n, res, t) == /\ ~vopen
                      /\ \/ vdisk[n] = None /\ res = "notfound"
                         \/ vdisk[n] # None /\ res = "ok" /\ t = vdisk[n]
 
-MapNext == \/ Open \/ Flush \/ CompactAny \/ Close
+MapNext == \/ Open \/ Flush \/ CompactAny \/ CompactFail \/ Close
            \/ \E n \in Names, c \in Toks, rep \in BOOLEAN : Add(n, c, rep)
            \/ \E n \in Names, rep \in BOOLEAN : AddFailExists(n, rep)
            \/ \E n \in Names : AddFailFull(n) \/ Remove(n) \/ RemoveFail(n)
